@@ -3,7 +3,7 @@
 change into /verif/seeded/<name>/ (patch.diff, demonstration, meta.json)."""
 import sys, os, shutil, json, subprocess
 ID, n, name, needs = sys.argv[1:5]
-S = "/tmp/seeds/%s/%s" % (ID, n)
+S = "%s/%s/%s" % (os.environ.get("SEEDROOT", "/tmp/seeds"), ID, n)
 D = "/verif/seeded/%s" % name
 os.makedirs(D, exist_ok=True)
 for f in os.listdir(S):
